@@ -40,7 +40,7 @@ func loadEnvInternal(env map[string]string, prefix string, prv reflect.Value) er
 			if err != nil {
 				return fmt.Errorf("%s: %w", prefix, err)
 			}
-		} else if !prv.IsNil() && envHasAtLeastAKeyWithPrefix(env, prefix) {
+		} else if !prv.IsNil() && envHasAtLeastAKeyWithPrefix(env, prefix+"_") {
 			// this is meant for values that load their own keys (OptionalPath).
 			// it cannot be applied to optional values that are not set (nil pointers)
 			err := i.UnmarshalEnv(prefix, "")
